@@ -368,10 +368,9 @@ def judge(chk, cases, tag):
             continue
         for c in known:
             if PREDICTS.get(c, set()) & set(fails):
-                if not equal:
-                    chk.violation(f'{tag}-{lang}-{k}', dict(payload, failures=fails, why=why, known=known),
-                                  f'case of class {c} fails but the model prints different bytes')
-                elif not chk.known(c, payload):
+                # the failure kinds of the REAL text are the ones the class predicts (anything else is `new` above); whether the model
+                # prints the same bytes is the correspondence's business (drift, reported without a failing input below)
+                if not chk.known(c, payload):
                     chk.violation(f'{tag}-{lang}-{k}', dict(payload, failures=fails, why=why, known=known), f'unlisted finding class {c}')
             else:
                 chk.count(f'class_without_failure.{c}')
